@@ -58,13 +58,44 @@ func cmdReplay(args []string) {
 		if c.Exp == nil {
 			vh.Die("case %d has no expectation", i)
 		}
+		if c.Fam == "req2" {
+			continue // run as sequences below
+		}
 		if c.Gv != nil {
 			replayOut(rep, worlds, names, c, i)
 		} else {
 			replayIn(rep, worlds, names, c, i)
 		}
 	}
+	replayReq2(rep, worlds, names, cases)
 	rep.Emit()
+}
+
+// replayReq2: the cases of family req2, forwards and backwards, on each world's root.
+func replayReq2(rep *vh.Report, worlds []*world, names []string, cases []Case) {
+	var idx []int
+	for i := range cases {
+		if cases[i].Fam == "req2" {
+			idx = append(idx, i)
+		}
+	}
+	seq := append([]int{}, idx...)
+	for j := len(idx) - 1; j >= 0; j-- {
+		seq = append(seq, idx[j])
+	}
+	for wi, w := range worlds {
+		for n, i := range seq {
+			c := &cases[i]
+			o := w.runReq2(c)
+			rep.Case(fmt.Sprintf("req2|%s|%s|%d", names[wi], o.Request, n), c.Exp.Out == "call" || n > 0)
+			rep.Class("req2")
+			if o.Out != c.Exp.Out {
+				rep.Mismatch(vh.Mismatch{Case: map[string]interface{}{"fam": "req2", "world": names[wi], "request": o.Request, "position_in_sequence": n + 1,
+					"prescribed": c.Exp.Out, "observed": map[string]interface{}{"outcome": o.Out, "resolver_calls": o.Calls, "received": describe(o.Got), "errors": o.Errs, "why": o.Why}},
+					What: fmt.Sprintf("two required arguments given as %v: the request must be %sed, observed %s", c.St, c.Exp.Out, o.Out)})
+			}
+		}
+	}
 }
 
 func known(c *Case) string {
@@ -87,6 +118,21 @@ func replayIn(rep *vh.Report, worlds []*world, names []string, c *Case, i int) {
 		}
 		why := agreesIn(c.Exp, o)
 		if why == "" {
+			// the same text for a field selected on members of different types of a list of an interface type
+			if pobs, ok := w.runPets(c); ok {
+				rep.Class("pets")
+				for _, po := range pobs {
+					if pw := agreesIn(c.Exp, po); pw != "" && !(c.ExpK != nil && agreesIn(c.ExpK, po) == "") {
+						cs := caseJSON(c)
+						cs["world"] = names[wi]
+						cs["request"] = po.Request
+						cs["prescribed"] = c.Exp
+						cs["observed"] = map[string]interface{}{"outcome": po.Out, "resolver_calls": po.Calls, "received": describe(po.Got), "errors": po.Errs}
+						rep.Mismatch(vh.Mismatch{Case: cs, What: "(member of a list of an interface type) " + pw})
+						break
+					}
+				}
+			}
 			continue
 		}
 		cs := caseJSON(c)
